@@ -460,6 +460,37 @@ def dropEscNl : List Char → List Char
   | c :: r => c :: dropEscNl r
   | [] => []
 
+/-- CSS Syntax 3 §4.3.5/§4.3.7: the value of a string token from the text between its quotes.  `\` + 1–6
+    hexadecimal digits + one optional white-space character is that code point (0, surrogates and values beyond
+    U+10FFFF: U+FFFD); `\` + newline is nothing; `\` + any other character is that character.  In particular
+    `\31` + `\`newline + `2` is "12" (the escape ends at the backslash), as is `\31 2`, while `\312` is U+312. -/
+def strValueGo : Nat → List Char → List Char
+  | 0, s => s
+  | _ + 1, [] => []
+  | fuel + 1, '\\' :: r =>
+    match r with
+    | [] => [Char.ofNat 0xFFFD]
+    | c :: r' =>
+      if isHexDigit c then
+        let hs := c :: (r'.takeWhile isHexDigit).take 5
+        let rest := r'.drop (hs.length - 1)
+        let rest := match rest with
+          | '\r' :: '\n' :: x => x
+          | w :: x => if isWs w then x else rest
+          | [] => []
+        let v := hexVal hs
+        (if v == 0 || v > 0x10FFFF || (0xD800 ≤ v && v ≤ 0xDFFF) then Char.ofNat 0xFFFD else Char.ofNat v) ::
+          strValueGo fuel rest
+      else if c == '\r' then
+        match r' with
+        | '\n' :: r'' => strValueGo fuel r''
+        | _ => strValueGo fuel r'
+      else if c == '\n' || c == Char.ofNat 12 then strValueGo fuel r'
+      else c :: strValueGo fuel r'
+  | fuel + 1, c :: r => c :: strValueGo fuel r
+
+def strValue (s : List Char) : List Char := strValueGo (s.length + 1) s
+
 
 /-! ## keywords -/
 
@@ -828,10 +859,8 @@ def normTok (fn : List Char) : Tok → Tok
     | .ident => match namedColor data with | some c => colorTok c | none => t
     | .whitespace => .mk .whitespace [' '] []
     | .string =>
-      -- the quote character is not significant when the content contains neither kind of quote
-      let body := dropEscNl (data.drop 1).dropLast
-      if body.contains '"' || body.contains '\'' then .mk .string (data.take 1 ++ body ++ data.take 1) []
-      else .mk .string ('"' :: body ++ ['"']) []
+      -- a string denotes its value: escapes resolved, the quote character is not significant
+      .mk .string ('"' :: strValue (data.drop 1).dropLast ++ ['"']) []
     | .url => .mk .url (urlContent data) []
     | .function =>
       match funcColor t with
